@@ -193,6 +193,10 @@ func checkC16(c Node) Verdict {
 		if len(out.Rows) != 1 || !Equal(out.Rows[0], map[string]any{"w": float64(8), "a": arg1}) {
 			return fail("echo", desc, sig, "%q returns %s, expected %s", got, Canon(any(out.Rows)), Canon(any(append(want, map[string]any{"w": float64(8), "a": arg1}))))
 		}
+	case 13:
+		if len(out.Rows) != 1 || !Equal(out.Rows[0], map[string]any{"r": "\ufffd", "a": arg1}) {
+			return fail("echo", desc, sig, "%q returns %s", got, Canon(any(out.Rows)))
+		}
 	case 7, 8, 10, 11:
 		if len(out.Rows) != 1 || !Equal(out.Rows[0], map[string]any{"a": arg1}) {
 			return fail("echo", desc, sig, "%q returns %s", got, Canon(any(out.Rows)))
